@@ -1302,6 +1302,23 @@ fn adts_to_raw(frame: &[u8]) -> Result<&[u8], AdtsValidationError> {
         | ((frame[4] as usize) << 3)
         | (((frame[5] & 0xE0) as usize) >> 5);
 
+    // A frame that consists of a header only would become a zero-length sample, which the
+    // sample-size table cannot represent (and which the writer asserts against).
+    if aac_frame_length == header_len {
+        return Err(AdtsValidationError {
+            kind: AdtsErrorKind::InvalidFrameLength,
+            severity: ErrorSeverity::Error,
+            byte_offset: 3,
+            expected: Some(format!(">{} (header length plus payload)", header_len)),
+            found: Some(format!("{} (header only, no payload)", aac_frame_length)),
+            hex_dump: Some(create_hex_dump(3, 3)),
+            suggestion: Some("Frame length equals the header length, so the frame carries no AAC payload. Drop empty frames before muxing.".to_string()),
+            code_example: None,
+            technical_details: Some(format!("Frame length (13 bits) includes the {}-byte header; a frame without payload cannot be stored as an MP4 sample.", header_len)),
+            related_errors: Vec::new(),
+        });
+    }
+
     if aac_frame_length < header_len {
         return Err(AdtsValidationError {
             kind: AdtsErrorKind::InvalidFrameLength,
